@@ -514,6 +514,18 @@ class Interp:
             m = models.lookup_model(cls)
         if m is not None:
             return m(self, args, kwargs)
+        if issubclass(cls, enum.Enum) and len(args) == 1 and not kwargs and isinstance(args[0], SChoice):
+            # Enum(value) for one of finitely many values: the member per alternative
+            members = []
+            for alt in args[0].alts:
+                try:
+                    members.append(cls(alt))
+                except ValueError:
+                    members = None
+                    break
+            if members is not None:
+                return SChoice(args[0].idx, members)
+            args = [self.resolve(args[0])]
         if issubclass(cls, enum.Enum) or not _is_repo_class(cls):
             if issubclass(cls, BaseException) and not _is_repo_class(cls):
                 try:
